@@ -557,6 +557,11 @@ def segment_variants(rng, lib, sname):
         val = fill_ref(row[1], 0)
         out.append((fill_segment(sname, ref, {field_index(row[0]): val + '~' + val}),
                     ('limit-not-reported', 'Limit|%s|%s' % (sname, row[0]), None), 'repeat-single-field'))
+    # an extra occurrence counts whatever it holds: the parser materialises the empty one after a trailing '~'
+    for row in rng.sample(single, min(2, len(single))):
+        val = fill_ref(row[1], 0)
+        out.append((fill_segment(sname, ref, {field_index(row[0]): rng.choice([val + '~', '~' + val])}),
+                    ('limit-not-reported', 'Limit|%s|%s' % (sname, row[0]), None), 'repeat-single-field-empty'))
     if rows:
         last = max(field_index(row[0]) or 0 for row in rows)
         open_ended = rows[-1][1][2] == 'varies' if len(rows[-1][1]) > 2 else False
